@@ -11,12 +11,15 @@ RULE = ('T in 1..Tmax; holding/fixed/purchase costs as scalar, length-T or lengt
 
 def gen_case(rng, tmax):
     T = rng.randint(1, tmax)
+    fractional = rng.random() < 0.4
     def arg(kind, lo, hi, first_pos=False):
         shape = rng.choice(['scalar', 'T', 'T1'])
         def val(i):
             if kind == 'd':
                 if i == 0 and first_pos: return rng.randint(1, hi)
-                return 0 if rng.random() < 0.25 else rng.randint(lo, hi)
+                if rng.random() < 0.25: return 0
+                # fractional demands (multiples of 1/4, exact in binary64) exercise the order-quantity reconstruction
+                return Fraction(rng.randint(1, 4 * hi), 4) if fractional else rng.randint(lo, hi)
             return Fraction(rng.randint(lo, hi), 4)
         if shape == 'scalar' and not (kind == 'd'):
             return ['scalar', val(0)]
